@@ -11,6 +11,7 @@ import (
 	"go/token"
 	"os"
 	"path/filepath"
+	"strconv"
 	"strings"
 )
 
@@ -65,7 +66,47 @@ func main() {
 					if set == "2" {
 						pfx = "n"
 					}
+					if set == "3" {
+						pfx = "k"
+					}
 					enc.Encode(mutant{ID: fmt.Sprintf("%s%04d", pfx, n), File: base, Line: fset.Position(start).Line, Func: fname, Kind: kind, Start: s, End: e, Repl: repl, Text: strings.ReplaceAll(txt, "\n", " ")})
+				}
+				if set == "3" {
+					switch x := nd.(type) {
+					case *ast.BasicLit:
+						switch x.Kind {
+						case token.INT:
+							if v, err := strconv.ParseInt(x.Value, 0, 64); err == nil {
+								emit("int-lit+1", x.Pos(), x.End(), strconv.FormatInt(v+1, 10))
+								if v > 1 {
+									emit("int-lit-1", x.Pos(), x.End(), strconv.FormatInt(v-1, 10))
+								}
+							}
+						case token.STRING:
+							if u, err := strconv.Unquote(x.Value); err == nil && len(u) >= 1 && len(u) <= 16 && !strings.Contains(u, "%") {
+								emit("str-lit", x.Pos(), x.End(), strconv.Quote(u+"_"))
+								if len(u) >= 2 {
+									emit("str-lit-short", x.Pos(), x.End(), strconv.Quote(u[:len(u)-1]))
+								}
+							}
+						case token.CHAR:
+							if u, _, _, err := strconv.UnquoteChar(x.Value[1:len(x.Value)-1], '\''); err == nil && u < 0x7e && u > 0x20 {
+								emit("char-lit", x.Pos(), x.End(), strconv.QuoteRune(u+1))
+							}
+						}
+					case *ast.CallExpr:
+						for i := 0; i+1 < len(x.Args); i++ {
+							if x.Ellipsis.IsValid() && i+1 == len(x.Args)-1 {
+								continue
+							}
+							a := string(src[fset.Position(x.Args[i].Pos()).Offset:fset.Position(x.Args[i].End()).Offset])
+							b := string(src[fset.Position(x.Args[i+1].Pos()).Offset:fset.Position(x.Args[i+1].End()).Offset])
+							if a != b {
+								emit("arg-swap", x.Args[i].Pos(), x.Args[i+1].End(), b+", "+a)
+							}
+						}
+					}
+					return true
 				}
 				if set == "2" {
 					switch x := nd.(type) {
